@@ -39,4 +39,36 @@ theorem C07_language_exact (r : Rx) (w : List Nat) :
     (r.accepts w = true ↔ Rx.Lang r w) ∧ ((r.derivs w).alive = false ↔ ¬ ∃ v, Rx.Lang r (w ++ v)) :=
   ⟨Rx.accepts_iff r w, Rx.dead_iff_no_extension r w⟩
 
+/-! ### Per-byte actions (`foreach … do { … }`), conditionals included
+
+  The reading the reference gives them, stated outright: in order; an append first asks whether its
+  output is full and, if so, hands the byte over to the out-of-space continuation — nothing of the
+  append and nothing after it is performed, the byte is not consumed; a conditional asks its
+  conditions in order, runs the block of the first that holds and then goes on with what follows it,
+  whichever branch was taken (or none). -/
+
+theorem C01_perbyte_nil (c : Src.Ctx) (oos k : STree) (d : Nat) : Src.pcActs c oos d [] k = k := by
+  unfold Src.pcActs; rfl
+
+theorem C01_perbyte_append (c : Src.Ctx) (oos k : STree) (d i : Nat) (e : IExpr) (rest : List SAct) :
+    Src.pcActs c oos d (.appendC i e :: rest) k
+      = .ask (.full i) oos (.emit (.appendC i (subst c.o c.x e)) (Src.pcActs c oos d rest k)) := by
+  rw [Src.pcActs]
+
+theorem C01_perbyte_if (c : Src.Ctx) (oos k : STree) (d b : Nat) (e : IExpr) (rest : List SAct) :
+    Src.pcActs c oos (d + 1) (.cond [(.expr e, b)] :: rest) k
+      = .ask (.cond (subst c.o c.x e))
+          (Src.pcActs c oos d (Src.blockActs c.p b) (Src.pcActs c oos (d + 1) rest k))
+          (Src.pcActs c oos (d + 1) rest k) := by
+  rw [Src.pcActs]
+  simp
+
+theorem C01_perbyte_if_else (c : Src.Ctx) (oos k : STree) (d b b' : Nat) (e : IExpr) (rest : List SAct) :
+    Src.pcActs c oos (d + 1) (.cond [(.expr e, b), (.else_, b')] :: rest) k
+      = .ask (.cond (subst c.o c.x e))
+          (Src.pcActs c oos d (Src.blockActs c.p b) (Src.pcActs c oos (d + 1) rest k))
+          (Src.pcActs c oos d (Src.blockActs c.p b') (Src.pcActs c oos (d + 1) rest k)) := by
+  rw [Src.pcActs]
+  simp
+
 end Nmfu
